@@ -26,10 +26,10 @@ class SgraphFromSelectorsTripleYielder(BaseTriplesYielder):
 
 
     def _collect_every_target_node(self):
-        result = set()
+        result = {}  # insertion-ordered: the order of the nodes (and of the output) must not depend on string hashing
         for an_item in self._shape_map.yield_items():
             for a_node in an_item.node_selector.get_target_nodes():
-                result.add(a_node)
+                result[a_node] = None
         return list(result)
 
 
